@@ -2976,6 +2976,12 @@ def c16_session_case(case, R, ref=None):
     for idx, st in enumerate(got["steps"]):
         out = st["outcome"]
         op = session[idx][0]
+        if out[0] == "exc" and op == "ndef_write" and out[1] == "AttributeError@nfc/tag/__init__.py:octets":
+            # documented behaviour of the octets setter for an NDEF area that is not writeable (e.g. after the
+            # protect() earlier in the session took effect): a refusal, not an escape (false alarm found by the
+            # thorough tier, seed 1: protect with a lost response, has_changed, ndef_write)
+            R.count("t1t_c16_session_write_refused_not_writeable")
+            return
         if out[0] == "exc":
             R.violation("t1t/c16/session/escape/%s/%s" % (op, out[1]), "%s: operation %d raised %s" % (where, idx + 1, out[2]), case)
             return
